@@ -23,14 +23,17 @@ extern "C" size_t LLVMFuzzerMutate(uint8_t *Data, size_t Size, size_t MaxSize);
 static char scratch[256];
 static long n_exec, n_rejected_big, n_pass2, n_ok, n_diag, n_exit, n_silent;
 static const char *stats_path;
+struct Avoid { std::string substr; int token_len; };
+static std::vector<Avoid> avoid;   // inputs that trigger listed known findings are skipped and counted
+static long n_rejected_known;
 
 static void dump_stats()
 {
   if (stats_path == NULL) { return; }
   FILE *f = fopen(stats_path, "w");
   if (f == NULL) { return; }
-  fprintf(f, "exec %ld\nrejected_big %ld\nreached_pass2 %ld\nassembled_ok %ld\ndiagnosed %ld\nexit_called %ld\nfailed_without_library_message %ld\n",
-          n_exec, n_rejected_big, n_pass2, n_ok, n_diag, n_exit, n_silent);
+  fprintf(f, "exec %ld\nrejected_big %ld\nreached_pass2 %ld\nassembled_ok %ld\ndiagnosed %ld\nexit_called %ld\nfailed_without_library_message %ld\nrejected_known_finding %ld\n",
+          n_exec, n_rejected_big, n_pass2, n_ok, n_diag, n_exit, n_silent, n_rejected_known);
   fclose(f);
 }
 
@@ -55,6 +58,25 @@ extern "C" int LLVMFuzzerInitialize(int *argc, char ***argv)
   write_file("ok.inc", "VALUE equ 5\n.define TEN 10\n.macro INCM(a)\n  .db a\n.endm\n");
   write_file("data.bin", "0123456789abcdef");
   stats_path = getenv("NV_FUZZ_STATS");
+  if (getenv("NV_FUZZ_AVOID") != NULL)
+  {
+    FILE *f = fopen(getenv("NV_FUZZ_AVOID"), "r");
+    char line[1024];
+    while (f != NULL && fgets(line, sizeof(line), f) != NULL)
+    {
+      size_t n = strlen(line);
+      while (n > 0 && (line[n - 1] == '\n' || line[n - 1] == '\r')) { line[--n] = 0; }
+      char *tab = strchr(line, '\t');
+      if (n > 0 && tab != NULL)
+      {
+        Avoid a;
+        a.substr.assign(line, tab - line);
+        a.token_len = atoi(tab + 1);
+        avoid.push_back(a);
+      }
+    }
+    if (f != NULL) { fclose(f); }
+  }
   atexit(dump_stats);
   return 0;
 }
@@ -108,6 +130,35 @@ extern "C" int LLVMFuzzerTestOneInput(const uint8_t *data, size_t size)
   std::string src((const char *)data + 1, size - 1);
   if (src.find('\0') != std::string::npos) { src = src.substr(0, src.find('\0')); }
   if (requests_huge_output(src)) { n_rejected_big++; return 0; }
+  if (!avoid.empty())
+  {
+    // longest run of characters that the tokenizer keeps in one token
+    int longest = 0, run = 0;
+    for (size_t i = 0; i < src.size(); i++)
+    {
+      char c = src[i];
+      if (c == ' ' || c == '\t' || c == '\n' || c == ',' || c == '(' || c == ')') { run = 0; } else { run++; }
+      if (run > longest) { longest = run; }
+    }
+    std::string lower = src;
+    for (size_t i = 0; i < lower.size(); i++) { lower[i] = tolower((unsigned char)lower[i]); }
+    for (size_t i = 0; i < avoid.size(); i++)
+    {
+      if (longest < avoid[i].token_len) { continue; }
+      // "a|b": every part must occur
+      bool all = true;
+      size_t pos = 0;
+      const std::string &subs = avoid[i].substr;
+      while (pos <= subs.size() && all)
+      {
+        size_t bar = subs.find('|', pos);
+        if (bar == std::string::npos) { bar = subs.size(); }
+        if (bar > pos && lower.find(subs.substr(pos, bar - pos)) == std::string::npos) { all = false; }
+        pos = bar + 1;
+      }
+      if (all) { n_rejected_known++; return 0; }
+    }
+  }
 
   FILE *f = fopen("input.asm", "wb");
   if (f == NULL) { return 0; }
@@ -124,6 +175,7 @@ extern "C" int LLVMFuzzerTestOneInput(const uint8_t *data, size_t size)
                                FILE_TYPE_AMIGA, FILE_TYPE_TI_TXT };
   o.file_type = types[(opt >> 4) & 7];
   o.outfile = "out.bin";
+  o.max_dense_span = 1 << 22;   // a dense image of a 4 GiB span is requested output, not a hang
   o.include_paths.push_back(".");
   NvResult r;
   nv_assemble(src, o, r);
